@@ -138,35 +138,40 @@ func digestOf(v reflect.Value) string {
 // schemabuilder.Expensive.
 func newFixture(argsT reflect.Type, variant int) (*fixture, error) {
 	fx := &fixture{argsT: argsT, shared: &node{ID: 7}}
-	in := []reflect.Type{argsT}
-	out := []reflect.Type{reflect.TypeOf("")}
-	argIdx := 0
-	if variant&1 == 1 {
-		in = []reflect.Type{tCtx, argsT}
-		out = append(out, tErr)
-		argIdx = 1
-	}
-	fn := reflect.MakeFunc(reflect.FuncOf(in, out, false), func(a []reflect.Value) []reflect.Value {
-		fx.mu.Lock()
-		fx.calls++
-		fx.captured = append(fx.captured, a[argIdx])
-		fx.mu.Unlock()
-		res := []reflect.Value{reflect.ValueOf(digestOf(a[argIdx]))}
+	var fnI interface{}
+	if mk, ok := staticFns[argsT]; ok {
+		fnI = mk(fx, variant&1 == 1)
+	} else {
+		in := []reflect.Type{argsT}
+		out := []reflect.Type{reflect.TypeOf("")}
+		argIdx := 0
 		if variant&1 == 1 {
-			res = append(res, reflect.Zero(tErr))
+			in = []reflect.Type{tCtx, argsT}
+			out = append(out, tErr)
+			argIdx = 1
 		}
-		return res
-	})
+		fnI = reflect.MakeFunc(reflect.FuncOf(in, out, false), func(a []reflect.Value) []reflect.Value {
+			fx.mu.Lock()
+			fx.calls++
+			fx.captured = append(fx.captured, a[argIdx])
+			fx.mu.Unlock()
+			res := []reflect.Value{reflect.ValueOf(digestOf(a[argIdx]))}
+			if variant&1 == 1 {
+				res = append(res, reflect.Zero(tErr))
+			}
+			return res
+		}).Interface()
+	}
 	s := schemabuilder.NewSchema()
 	registerEnums(s)
-	s.Query().FieldFunc("f", fn.Interface())
-	s.Mutation().FieldFunc("f", fn.Interface())
+	s.Query().FieldFunc("f", fnI)
+	s.Mutation().FieldFunc("f", fnI)
 	s.Query().FieldFunc("node", func() *node { return fx.shared })
 	obj := s.Object("Node", node{})
 	if variant&2 == 2 {
-		obj.FieldFunc("f", fn.Interface(), schemabuilder.Expensive)
+		obj.FieldFunc("f", fnI, schemabuilder.Expensive)
 	} else {
-		obj.FieldFunc("f", fn.Interface())
+		obj.FieldFunc("f", fnI)
 	}
 	obj.FieldFunc("self", func(n *node) *node { return n })
 	built, err := s.Build()
@@ -989,7 +994,7 @@ func Describe(run *vlib.Run) {
 		"Oracle: every transport's captured args == the generated Go value (nil and empty slices not told apart, times compared as instant+offset), resolver called exactly once; invalid requests: Parse or PrepareQuery returns a graphql.SanitizedError and the resolver is not called. " +
 		"HTTP leg: one graphql.HTTPHandler per case receives a sequence of POSTs with ONE query text (all arguments through variables): the value; then in random order the same again, a wrong-kind twin (one node replaced by a value of another JSON kind that fmt prints identically: 21/\"21\", true/\"true\", list or object/its printed string), a same-look twin (a different valid value that prints identically: neighbouring strings merged or split, null/\"<nil>\", two string fields folded into one) whose expected value comes from the reference decoder, and an invalid request; valid ones must arrive as sent, invalid ones must come back with errors and no resolver call. " +
 		"Positions leg: the field also lives on a Node object (registered with schemabuilder.Expensive in half of the schemas) whose one shared pointer is reachable through node / self; ONE query selects the field at 2-3 positions (two root fields, an object and the same object below it, root and node), usually under the same alias, each position with its own value and transport, sent through the HTTP handler (rerunner context) and in process; the answer at every position must be the digest of the value sent for that position and the resolvers must have received exactly the values sent. " +
-		"Concurrent leg (every 16th case index in c18; all cases of package c18conc, which is built with -race): 8 clients x 2 requests at the same time on ONE schema (HTTP handler / in-process alternating), each request with its own value and transport of the same args type (two thirds of these shapes start with a TextUnmarshaler field, incl. long texts and an UnmarshalText with a scheduling point); each answer must be the digest of the value that request sent. " +
+		"Concurrent leg (every 16th case index in c18; all cases of package c18conc, which is built with -race): 8 clients x 2 requests at the same time on ONE schema (HTTP handler / in-process alternating), each request with its own value and transport of the same args type (in c18: generated shapes, two thirds starting with a TextUnmarshaler field, and every other concurrent case a compile-time struct; in c18conc: only the 8 compile-time args structs CA1..CA8 served by ordinary closures, no reflect.StructOf / reflect.MakeFunc; long texts and an UnmarshalText with a scheduling point); each answer must be the digest of the value that request sent. " +
 		"Non-trivial = at least 2 of {list, nested input object, pointer/optional tag, named scalar/enum/bytes/time/text, a default transport carried a value}; distinct = args type signature + mutation class.")
 	run.Assume("graphql-go's lexer/parser (third party) reads GraphQL literals as written by gqlQuote / strconv")
 	run.Assume("variables reach graphql.Parse as json.Unmarshal output (map[string]interface{} with float64 numbers), as in graphql/http.go and graphql/server.go")
